@@ -38,6 +38,11 @@ class RuleError(Exception):
     pass
 
 
+class RuleAttrError(RuleError, AttributeError):
+    """what a rule raises when it trips over a missing attribute: an AttributeError like any other
+    exception of a rule - it propagates; it does not mean that the visitor has no such method"""
+
+
 def dispatch_ref(cls_name: str, methods: set[str], strict: bool) -> str:
     if strict:
         return f"visit_{cls_name}" if cls_name in methods else "generic_visit"
@@ -173,7 +178,7 @@ def make_transformer(rules: dict, strict: bool, removable_live: dict, log: list,
             if a == "keep":
                 return new
             if a == "raise":
-                raise RuleError(id(node))
+                raise (RuleAttrError if action[1] % 2 else RuleError)(id(node))
             if a == "remove":
                 return None if removable_live.get(id(node), False) else new
             if a == "replace":
